@@ -299,12 +299,14 @@ def C12():
     jobs = [
         MirJob("c12_mir_automaton", "global::Client::read: per state arm, the state advances only to the required successor and only when that arm's recogniser accepted; demand-active is answered by exactly one confirm-active then one finalization before the state store; a failed write keeps the state; no other arm writes; bitmaps (read_fast_path) only in Data",
                mirjobs.global_read),
+        MirJob("c12_mir_recognisers", "decision logic of read_demand_active_pdu / read_synchronize_pdu / read_control_pdu / read_font_map_pdu: true only after the share-control type (and data PDU type, and action) matched the expected constants, false only when one of these comparisons failed - a PDU of the expected kind is never ignored (their parsing stays outside)",
+               mirjobs.recognisers),
         MirJob("c12_mir_deactivate", "read_data_pdu: the only state store is := DemandActivePDU and it is dominated by pdu_type == PdutypeDeactivateallpdu", mirjobs.global_deactivate),
         MirJob("c12_mir_input_gating", "write_input_event sends only in the Data state and otherwise returns Err(InvalidAutomata) without building or writing anything; RdpClient::write refuses unsendable event kinds and makes exactly one write_input_event call per pointer/key event; try_write only maps the refusal to Ok",
                mirjobs.input_gating),
     ]
     return Prop("C12", [], jobs,
-                assumptions=["the automaton is verified modulo its recognisers: that read_synchronize_pdu etc. return true exactly on their PDU is outside (size-dependent Component parses)",
+                assumptions=["the recognisers' decision logic (which type/action constants are compared, which outcome returns true/false) is decided (c12_mir_recognisers); the PARSING of the PDU they decide on is outside (size-dependent Component parses)",
                              "E3 explores every path of each function with call results unconstrained"],
                 text="The activation automaton decided on the MIR of the real global::Client::read / read_data_pdu / write_input_event and RdpClient::write/try_write: every path of every state arm is enumerated symbolically and checked against the reference transition table; domination facts by z3 fixedpoint.",
                 note="NOT covered: the recognisers themselves (they parse size-dependent components), hence sequences of concrete PDUs are not executed; the property is decided per step from an arbitrary state, which covers histories of any length modulo the recognisers.",
